@@ -143,3 +143,34 @@ Example ex_names :
   names_offered false exf [] (B [45;99]) = NNames [B [45;99;99]; B [45;99;115]] /\
   names_offered false exf [] (B [45;115]) = NOther.
 Proof. repeat split; reflexivity. Qed.
+
+(* ---------- an offered shorthand name is accepted and sets that very flag ---------- *)
+Lemma short_word_step fs il st c f rest : p_stopped st = false -> beq c (byte 45) = false -> Pflag.find_short fs c = Some f ->
+  pfp fs il None ((byte 45 :: [c]) :: rest) st =
+    if takes_next f then pfp fs il (Some f) rest (add_sets st [])
+    else pfp fs il None rest (add_sets st [(fname f, noopt f)]).
+Proof.
+  intros Hs Hc Hf. cbn [pfp]. rewrite Hs.
+  assert (E1 : str_eqb [byte 45; c] dash2 = false).
+  { cbn [str_eqb dash2 B map]. rewrite beq_refl. cbn [andb]. unfold byte in Hc. rewrite Hc. reflexivity. }
+  rewrite E1. change (starts_dash [byte 45; c]) with true. cbn [negb orb].
+  change (str_eqb [byte 45; c] (B [45])) with false.
+  assert (E2 : has_prefix [byte 45; c] dash2 = false).
+  { cbn [has_prefix dash2 B map]. rewrite beq_refl. cbn [andb]. unfold beq in *. rewrite Ascii.eqb_sym. unfold byte in Hc. rewrite Hc. reflexivity. }
+  rewrite E2. cbn [negb drop chain]. rewrite Hf. destruct (takes_next f); reflexivity.
+Qed.
+
+Theorem offered_short_accepted fs il ws st c f v :
+  parse fs il ws = POk st -> p_stopped st = false -> beq c (byte 45) = false -> Pflag.find_short fs c = Some f ->
+  exists st', parse fs il (ws ++ [byte 45; c] :: (if takes_next f then [v] else [])) = POk st' /\
+              last (p_sets st') no_set = (fname f, if takes_next f then v else noopt f) /\
+              p_args st' = p_args st.
+Proof.
+  intros Hp Hs Hc Hf. unfold parse in *. rewrite pfp_is_pf_parse in Hp.
+  destruct (pfp fs il None ws p0) as [s| |] eqn:Er; try discriminate. injection Hp as ->.
+  rewrite pfp_is_pf_parse, pfp_app, Er, (short_word_step fs il st c f _ Hs Hc Hf).
+  destruct (takes_next f).
+  - cbn [pfp]. eexists. split; [reflexivity|]. cbn [set_flag add_sets p_sets p_args]. rewrite app_nil_r.
+    split; [apply last_last|reflexivity].
+  - cbn [pfp]. eexists. split; [reflexivity|]. cbn [add_sets p_sets p_args]. split; [apply last_last|reflexivity].
+Qed.
